@@ -1005,9 +1005,9 @@ func init() {
 		},
 		Spaces: func(tier string) []*core.Space {
 			if tier == "thorough" {
-				return []*core.Space{c07Unpack(), c07OddCalls(), c07Cycles(), c07Overlaps(3), c07Addresses(), c07Parse(5), c07VarExp(6, []string{""}), c07VarExp(5, []string{"${}", "${:a}", "a${a.${}"}), c07Loaders(4), c07Lexer(5), c07LexerPrefixed(4)}
+				return []*core.Space{c07Unpack(), c07OddCalls(), c07Cycles(), c07SetChildGraphs(4), c07Overlaps(3), c07Addresses(), c07Parse(5), c07VarExp(6, []string{""}), c07VarExp(5, []string{"${}", "${:a}", "a${a.${}"}), c07Loaders(4), c07Lexer(5), c07LexerPrefixed(4)}
 			}
-			return []*core.Space{c07Unpack(), c07OddCalls(), c07Cycles(), c07Overlaps(3), c07Addresses(), c07Parse(4), c07VarExp(5, []string{""}), c07VarExp(4, []string{"${}", "${:a}", "a${a.${}"}), c07Loaders(3), c07Lexer(4), c07LexerPrefixed(3)}
+			return []*core.Space{c07Unpack(), c07OddCalls(), c07Cycles(), c07SetChildGraphs(3), c07Overlaps(3), c07Addresses(), c07Parse(4), c07VarExp(5, []string{""}), c07VarExp(4, []string{"${}", "${:a}", "a${a.${}"}), c07Loaders(3), c07Lexer(4), c07LexerPrefixed(3)}
 		},
 	})
 }
